@@ -550,10 +550,30 @@ func verifH_CliBlocked() {
 	car := vNewCliCarrier(context.Background())
 	c := vNewCliChannel(car, 0, false)
 	c.settings.InitialWindowSize = 0 // the peer grants nothing
+	phase := verifChoice("phase", 4)
+	stuck := make(chan struct{})
+	if phase == 3 {
+		// another way for a send to hang: the window is there, but the transport under the carrier is
+		// backed up and the carrier's Send does not return (until the harness lets it)
+		c.settings.InitialWindowSize = 100
+		car.onSend = func(m *tunnelpb.ClientToServer) {
+			if _, ok := m.Frame.(*tunnelpb.ClientToServer_RequestMessage); ok {
+				<-stuck
+			}
+		}
+	}
 	cctx, ccancel := context.WithCancel(context.Background())
 	st, err := c.newStream(cctx, true, true, "svc/m")
 	verifAssume(err == nil)
-	phase := verifChoice("phase", 3)
+	senderReturned := false
+	if phase == 3 {
+		verifGo("sender", func() {
+			_ = st.SendMsg(&wrapperspb.BytesValue{Value: []byte{1, 2, 3}})
+			senderReturned = true
+		})
+		verifDrain()
+		verifAssert(!senderReturned, "C05.cli-sender-is-stuck-in-the-carrier")
+	}
 	var cerr error
 	var hdrs metadata.MD
 	returned := false
@@ -561,7 +581,7 @@ func verifH_CliBlocked() {
 		switch phase {
 		case 0:
 			cerr = st.SendMsg(&wrapperspb.BytesValue{Value: []byte{1, 2, 3}})
-		case 1:
+		case 1, 3:
 			cerr = st.RecvMsg(&wrapperspb.BytesValue{})
 		case 2:
 			hdrs, cerr = st.Header()
@@ -593,9 +613,17 @@ func verifH_CliBlocked() {
 		c.close(nil) // the tunnel goes away (cleanly)
 	}
 	verifDrain()
+	// (phase 3: released although the same RPC's send is still stuck in the carrier - the end of an RPC does
+	// not wait for the peer or the transport)
 	verifAssert(returned, "C04+C05+C07.cli-blocked-call-is-released")
+	if phase == 3 {
+		verifCover("released-while-send-stuck-in-carrier")
+		close(stuck)
+		verifDrain()
+		verifAssert(senderReturned, "C04+C07.cli-stuck-send-returns-once-the-carrier-lets-it")
+	}
 	if returned {
-		if phase == 1 && event == 2 {
+		if (phase == 1 || phase == 3) && event == 2 {
 			verifAssert(cerr == io.EOF, "C02.cli-ok-close-ends-recv-with-eof")
 		} else {
 			verifAssert(cerr != nil && cerr != io.EOF, "C04+C07.cli-released-call-is-non-ok")
